@@ -192,6 +192,29 @@ class Analyzer:
         self.param_calls = {}    # collected during a round
         self.param_ok = self._private_fns(prog)
         self.private = {}
+        # closures: the types of the captured values (from the aggregate that creates the closure); a captured integer
+        # (or reference to one) is treated like a private field of the closure's environment: its range is inferred from
+        # the creation site(s)
+        self.closure_ops = {}
+        for g in prog.fns.values():
+            if not g.body:
+                continue
+            for b in g.body["blocks"]:
+                for s_ in b["s"]:
+                    rv = s_.get("rv") or {}
+                    if s_["k"] == "assign" and rv.get("k") == "agg" and rv.get("agg") == "closure" and rv.get("closure"):
+                        tys = []
+                        for o in rv["ops"]:
+                            pl = o.get("move") or o.get("copy")
+                            t_ = g.body["locals"][pl["l"]]["ty"] if pl is not None and not pl["p"] else None
+                            tys.append(t_)
+                        self.closure_ops[rv["closure"]] = tys
+                        for i, t_ in enumerate(tys):
+                            base = t_
+                            while isinstance(base, dict) and "ref" in base:
+                                base = base["ref"]
+                            if is_int(base):
+                                self.private[("closure:" + rv["closure"], str(i))] = base
         for path, adt in prog.adts.items():
             if adt["kind"] == "struct":
                 for f in adt["variants"][0]["fields"]:
@@ -312,7 +335,9 @@ class Analyzer:
                     else:
                         ty = None
                 elif isinstance(ty, dict) and "closure" in ty:
-                    ty = None
+                    tys = self.closure_ops.get(ty["closure"])
+                    stack.append(("closure:" + ty["closure"], str(i)))
+                    ty = tys[i] if tys and i < len(tys) else None
                 else:
                     ty = None
                 variant = None
@@ -564,6 +589,10 @@ class FnRun:
                     st[("variant", (ndl, tuple(ndp) + rest))] = v
                 if ptr is not None and not ndp:
                     st[("ptr", ndl)] = ptr
+                elif not ndp and sp and isinstance(dty, dict) and "ref" in dty and ("ptr", ndl) not in st:
+                    # a reference copied out of a field (`_8 = copy _1.0` in a closure, the captured `&bit_index`):
+                    # `*_8` is the place `*(_1.0)`
+                    st[("ptr", ndl)] = (sl, tuple(sp) + ("*",))
                 if (ndl, tuple(ndp)) != (sl, tuple(sp)):
                     # the copy of a struct handed to a bool helper (`if self.is_outside(p)`): what is learnt about a
                     # field of the copy holds for the same field of the original
@@ -678,6 +707,12 @@ class FnRun:
             for i, o in enumerate(rv["ops"]):
                 v = self.operand(st, o)
                 opl = o.get("copy") or o.get("move")
+                if rv["agg"] == "closure" and rv.get("closure") and ("closure:" + rv["closure"], str(i)) in self.an.private:
+                    cv = v
+                    if cv is None and opl is not None and not opl["p"] and ("ptr", opl["l"]) in st:
+                        tl_, tp_ = st[("ptr", opl["l"])]      # captured by reference: the range of the borrowed place
+                        cv = self.read(st, tl_, tuple(tp_))
+                    self.an.record_field("closure:" + rv["closure"], str(i), cv)
                 if rv["agg"] == "adt" and adt is not None and adt["kind"] == "struct" and i < len(adt["variants"][0]["fields"]):
                     fdef = adt["variants"][0]["fields"][i]
                     if is_int(fdef["ty"]):
